@@ -5,8 +5,7 @@
    implemented (two stack cursors, skipCommon / skipCommonParents with
    parentsAreNew, either value of considerAllRowsModified, the model's own fuel)
    returns exactly the declarative diff of the two flattenings.
-   Not proved: the same for bounded key ranges (see the comment before
-   key_range_diff_unbounded_partial). *)
+   Bounded key ranges: range_diff_spec (end of the file), for every [start, stop). *)
 From Coq Require Import NArith ZArith PeanoNat List Bool Lia.
 From Dolt Require Import Prolly.Tree Prolly.Cursor C13.Model C13.Spec.
 Import ListNotations.
@@ -535,7 +534,8 @@ Lemma filter_all_true' {A} (l : list A) : filter (fun _ => true) l = l.
 Proof. induction l as [|x l IH]; [reflexivity|]. cbn [filter]. rewrite IH. reflexivity. Qed.
 
 (* ---- ranges ---------------------------------------------------------------------
-   Full statement (NOT proved):
+   The unbounded range first; the full statement is range_diff_spec at the end of the
+   file (the notes below describe what it needed):
 
      range_diff_spec : forall lo hi a b, wf_root a -> wf_root b ->
        key_range_diff addr_eqb dec lo hi a b = Some (range_list_diff_d dec lo hi (flatten a) (flatten b))
@@ -646,7 +646,428 @@ Proof.
     cbn [change_key fst snd]. split; [reflexivity|]. apply get_in, E.
 Qed.
 
-(* Not proved here (stated for the record): list_diff_complete —
-     forall a b, ksorted (keys a) -> ksorted (keys b) ->
-     forall c, In c (list_diff a b) <-> key_change (change_key c) a b = Some c.
-   The one-sided cases are removed_all_complete above and its mirror image. *)
+Lemma added_all_complete (l : list kv) c :
+  ksorted (keys l) ->
+  In c (map (fun e => Added (fst e) (snd e)) l) <-> key_change (change_key c) [] l = Some c.
+Proof.
+  intros Hs. unfold key_change. cbn [d_get]. split.
+  - intros Hc. apply in_map_iff in Hc as ([k v] & <- & He). cbn [change_key fst snd].
+    rewrite (in_sorted_get k v l Hs He). reflexivity.
+  - destruct (d_get (change_key c) l) as [w|] eqn:E; [|discriminate]. intros H. injection H as <-.
+    cbn [change_key] in E. apply in_map_iff. exists (change_key (Added (change_key c) w), w).
+    cbn [change_key fst snd]. split; [reflexivity|]. apply get_in, E.
+Qed.
+
+Lemma key_change_cons_cons q ka va a kb vb b :
+  key_change q ((ka, va) :: a) ((kb, vb) :: b) =
+  match (if ka =? q then Some va else d_get q a), (if kb =? q then Some vb else d_get q b) with
+  | None, None => None
+  | Some v, None => Some (Removed q v)
+  | None, Some w => Some (Added q w)
+  | Some v, Some w => if v =? w then None else Some (Modified q v w)
+  end.
+Proof. reflexivity. Qed.
+
+Lemma key_change_cons_l q ka va a B :
+  key_change q ((ka, va) :: a) B =
+  match (if ka =? q then Some va else d_get q a), d_get q B with
+  | None, None => None
+  | Some v, None => Some (Removed q v)
+  | None, Some w => Some (Added q w)
+  | Some v, Some w => if v =? w then None else Some (Modified q v w)
+  end.
+Proof. reflexivity. Qed.
+
+Lemma key_change_cons_r q A kb vb b :
+  key_change q A ((kb, vb) :: b) =
+  match d_get q A, (if kb =? q then Some vb else d_get q b) with
+  | None, None => None
+  | Some v, None => Some (Removed q v)
+  | None, Some w => Some (Added q w)
+  | Some v, Some w => if v =? w then None else Some (Modified q v w)
+  end.
+Proof. reflexivity. Qed.
+
+Lemma key_change_key q A B c : key_change q A B = Some c -> change_key c = q.
+Proof.
+  unfold key_change. destruct (d_get q A) as [v|], (d_get q B) as [w|]; try discriminate.
+  - destruct (v =? w); [discriminate|]. intros H. injection H as <-. reflexivity.
+  - intros H. injection H as <-. reflexivity.
+  - intros H. injection H as <-. reflexivity.
+Qed.
+
+(* exactly the keys whose presence or value differs, with the right kind and values *)
+Theorem list_diff_complete : forall a b,
+  ksorted (keys a) -> ksorted (keys b) ->
+  forall c, In c (list_diff a b) <-> key_change (change_key c) a b = Some c.
+Proof.
+  induction a as [|[ka va] a IHa]; intros b Ha Hb c; [apply (added_all_complete b c Hb)|].
+  cbn [keys map fst] in Ha. pose proof Ha as Ha0. apply sorted_tail' in Ha as [Ha Hfa].
+  pose proof (d_get_none_lb ka a Hfa) as Na.
+  revert c. induction b as [|[kb vb] b IHb]; intros c.
+  { rewrite list_diff_nil_r. apply (removed_all_complete ((ka, va) :: a) c Ha0). }
+  cbn [keys map fst] in Hb. pose proof Hb as Hb0. apply sorted_tail' in Hb as [Hb Hfb].
+  pose proof (d_get_none_lb kb b Hfb) as Nb.
+  rewrite list_diff_head, key_change_cons_cons.
+  set (q := change_key c).
+  destruct (ka <? kb) eqn:E1.
+  - apply N.ltb_lt in E1.
+    pose proof (IHa ((kb, vb) :: b) Ha Hb0 c) as IH. rewrite key_change_cons_r in IH. fold q in IH.
+    destruct (ka =? q) eqn:E.
+    + apply N.eqb_eq in E.
+      replace (kb =? q) with false by (symmetry; apply N.eqb_neq; lia).
+      rewrite <- E, (d_get_none_lb ka b (Forall_lt_weaken ka kb _ ltac:(lia) Hfb)).
+      replace (kb =? q) with false in IH by (symmetry; apply N.eqb_neq; lia).
+      rewrite <- E, Na, (d_get_none_lb ka b (Forall_lt_weaken ka kb _ ltac:(lia) Hfb)) in IH.
+      cbn [In]. split.
+      * intros [H|H]; [subst c; reflexivity | apply IH in H; discriminate].
+      * intros H. left. injection H as H. first [exact H | rewrite <- H; rewrite ?E; reflexivity | rewrite <- H; rewrite <- ?E; reflexivity].
+    + cbn [In]. rewrite IH. split; [|intros H; right; exact H].
+      intros [H|H]; [|exact H]. subst c. unfold q in E. cbn [change_key] in E. rewrite N.eqb_refl in E. discriminate.
+  - apply N.ltb_ge in E1. destruct (kb <? ka) eqn:E2.
+    + apply N.ltb_lt in E2.
+      pose proof (IHb Hb c) as IH. rewrite key_change_cons_l in IH. fold q in IH.
+      destruct (kb =? q) eqn:E.
+      * apply N.eqb_eq in E.
+        replace (ka =? q) with false by (symmetry; apply N.eqb_neq; lia).
+        replace (ka =? q) with false in IH by (symmetry; apply N.eqb_neq; lia).
+        rewrite <- E, (d_get_none_lb kb a (Forall_lt_weaken kb ka _ ltac:(lia) Hfa)).
+        rewrite <- E, Nb, (d_get_none_lb kb a (Forall_lt_weaken kb ka _ ltac:(lia) Hfa)) in IH.
+        cbn [In]. split.
+        -- intros [H|H]; [subst c; reflexivity | apply IH in H; discriminate].
+        -- intros H. left. injection H as H. first [exact H | rewrite <- H; rewrite ?E; reflexivity | rewrite <- H; rewrite <- ?E; reflexivity].
+      * cbn [In]. rewrite IH. split; [|intros H; right; exact H].
+        intros [H|H]; [|exact H]. subst c. unfold q in E. cbn [change_key] in E. rewrite N.eqb_refl in E. discriminate.
+    + apply N.ltb_ge in E2. assert (ka = kb) by lia. subst kb.
+      pose proof (IHa b Ha Hb c) as IH. unfold key_change in IH. fold q in IH.
+      destruct (ka =? q) eqn:E.
+      * apply N.eqb_eq in E. rewrite <- E, Na, Nb in IH.
+        destruct (va =? vb) eqn:Ev.
+        -- rewrite IH. split; discriminate.
+        -- cbn [In]. split.
+           ++ intros [H|H]; [subst c; rewrite E; reflexivity | apply IH in H; discriminate].
+           ++ intros H. left. injection H as H. first [exact H | rewrite <- H; rewrite ?E; reflexivity | rewrite <- H; rewrite <- ?E; reflexivity].
+      * destruct (va =? vb) eqn:Ev; [exact IH|].
+        cbn [In]. rewrite IH. split; [|intros H; right; exact H].
+        intros [H|H]; [|exact H]. subst c. unfold q in E. cbn [change_key] in E. rewrite N.eqb_refl in E. discriminate.
+Qed.
+
+(* ======================================================================== *)
+(* Bounded key ranges                                                        *)
+(* ======================================================================== *)
+
+Lemma skip_located (addr_eqb : node -> node -> bool) ta tb n : forall pnew f t f' t',
+  located ta f -> located tb t ->
+  skip_common addr_eqb n pnew f t = Some (f', t') -> located ta f' /\ located tb t'.
+Proof.
+  induction n as [|n IH]; intros pnew f t f' t' Lf Lt H; [discriminate|].
+  cbn [skip_common] in H.
+  destruct (cur_item f) as [x|] eqn:Ex; [|injection H as <- <-; split; assumption].
+  destruct (cur_item t) as [y|] eqn:Ey; [|injection H as <- <-; split; assumption].
+  destruct (negb (equal_items addr_eqb x y)); [injection H as <- <-; split; assumption|].
+  destruct (pnew && equal_parents addr_eqb f t) eqn:Eup.
+  - apply andb_true_iff in Eup as [_ Eup].
+    destruct (equal_parents_true addr_eqb f t Eup) as (fr & g0 & gr & pf & tr & h0 & hr & pt & -> & -> & _).
+    cbn [tl] in H.
+    destruct (skip_common addr_eqb n true ((g0 :: gr) :: pf) ((h0 :: hr) :: pt)) as [[qf qt]|] eqn:E1; [|discriminate].
+    destruct (IH _ _ _ _ _ (located_tl _ _ _ _ Lf) (located_tl _ _ _ _ Lt) E1) as (Lqf & Lqt).
+    apply (IH _ _ _ _ _ (refetch_located' _ _ Lqf) (refetch_located' _ _ Lqt) H).
+  - apply (IH _ _ _ _ _ (advance_located _ _ Lf) (advance_located _ _ Lt) H).
+Qed.
+
+Lemma filter_all_false {A} (f : A -> bool) l : Forall (fun x => f x = false) l -> filter f l = [].
+Proof. induction 1 as [|x l Hx _ IH]; [reflexivity|]. cbn [filter]. rewrite Hx. exact IH. Qed.
+
+Section Range.
+  Variable addr_eqb : node -> node -> bool.
+  Hypothesis addr_inj : forall x y, addr_eqb x y = true -> x = y.
+  Variables a b : node.
+  Hypothesis Ha : wf_root a.
+  Hypothesis Hb : wf_root b.
+  (* the stop bound, as a predicate on keys ("stop <= k"), and the two stop cursors *)
+  Variable phi : key -> bool.
+  Hypothesis Hphi : mono phi.
+  Variables fstop tstop : cursor.
+
+  (* what a stop cursor must do: cut exactly at the bound *)
+  Definition stops_at (t : node) (stop : cursor) : Prop :=
+    forall c k v, cinv (flatten t) 0 c -> located t c -> length c = S (level t) ->
+      cur_kv c = Some (k, v) -> in_bounds c stop = negb (phi k).
+  Hypothesis Hfs : stops_at a fstop.
+  Hypothesis Hts : stops_at b tstop.
+
+  (* a cursor the loop may hold: a proper cursor of the tree, or an exhausted one *)
+  Definition cst (t : node) (c : cursor) : Prop :=
+    (cinv (flatten t) 0 c /\ located t c /\ length c = S (level t))
+    \/ (cur_valid c = false /\ cur_sem c = []).
+
+  Definition W (l : list kv) : list kv := filter (fun e => negb (phi (fst e))) l.
+
+  Lemma W_nil_from k v l : ksorted (keys ((k, v) :: l)) -> phi k = true -> W ((k, v) :: l) = [].
+  Proof.
+    intros Hs Hk. unfold W. apply filter_all_false. rewrite Forall_forall. intros [k' v'] Hin. cbn [fst].
+    destruct Hin as [E|Hin]; [injection E as <- <-; rewrite Hk; reflexivity|].
+    cbn [keys map fst] in Hs. inversion Hs as [|? ? _ Hf]; subst. rewrite Forall_forall in Hf.
+    assert (k < k') by (apply Hf, in_map_iff; exists (k', v'); split; [reflexivity|exact Hin]).
+    rewrite (Hphi k k' ltac:(lia) Hk). reflexivity.
+  Qed.
+
+  Lemma in_bounds_invalid c stop : cur_valid c = false -> in_bounds c stop = false.
+  Proof. intros H. unfold in_bounds. rewrite H. reflexivity. Qed.
+
+  (* one side of the loop: either the cursor is inside the range and stands on an entry
+     below the bound, or it contributes nothing any more *)
+  Lemma side_view t stop c :
+    wf_root t -> stops_at t stop -> cst t c ->
+    (in_bounds c stop = true /\ exists k v,
+        cur_kv c = Some (k, v) /\ cur_sem c = (k, v) :: cur_sem (advance c) /\ phi k = false
+        /\ cinv (flatten t) 0 c /\ cinv (flatten t) 0 (advance c) /\ located t (advance c)
+        /\ length (advance c) = S (level t))
+    \/ (in_bounds c stop = false /\ W (cur_sem c) = []).
+  Proof.
+    intros Hwf Hs [(Ic & Lc & Nc)|(Vc & Sc)].
+    - destruct (cur_valid c) eqn:V.
+      + destruct (leaf_view _ c Ic V) as (k & v & Kc & Sc & Iac & Lac).
+        pose proof (Hs c k v Ic Lc Nc Kc) as Hin.
+        destruct (phi k) eqn:Ek; cbn [negb] in Hin.
+        * right. split; [exact Hin|]. rewrite Sc. apply W_nil_from; [|exact Ek]. rewrite <- Sc.
+          destruct Ic as (Hne & _ & _ & _ & Hpos). unfold pos_ok in Hpos. rewrite (sems_hd _ Hne) in Hpos.
+          inversion Hpos as [|? ? [bb Hbb] _]; subst. pose proof (wf_root_ksorted t Hwf) as Hso.
+          rewrite Hbb, keys_app in Hso. apply ksorted_app in Hso as (_ & Hso & _). exact Hso.
+        * left. split; [exact Hin|]. exists k, v. split; [exact Kc|]. split; [exact Sc|]. split; [exact Ek|].
+          split; [exact Ic|]. split; [exact Iac|]. split; [apply advance_located, Lc|]. congruence.
+      + right. split; [apply in_bounds_invalid, V|]. destruct (invalid_view _ 0 c Ic V) as (_ & ->). reflexivity.
+    - right. split; [apply in_bounds_invalid, Vc|]. rewrite Sc. reflexivity.
+  Qed.
+
+  Lemma W_cons_in k v l : phi k = false -> W ((k, v) :: l) = (k, v) :: W l.
+  Proof. intros H. unfold W. cbn [filter fst]. rewrite H. reflexivity. Qed.
+
+  Lemma W_app x y : W (x ++ y) = W x ++ W y.
+  Proof. apply filter_app. Qed.
+
+  Lemma diff_okw n : forall f t r,
+    cst a f -> cst b t ->
+    diff_loop addr_eqb n false f t fstop tstop = Some r ->
+    r = list_diff_g false (W (cur_sem f)) (W (cur_sem t)).
+  Proof.
+    pose proof (wf_root_ksorted a Ha) as Sa.
+    induction n as [|n IH]; intros f t r Cf Ct H; [discriminate|].
+    cbn [diff_loop] in H.
+    destruct (side_view a fstop f Ha Hfs Cf) as [(Bf & fk & fv & Kf & Sf & Pf & If & Iaf & Laf & Naf)|(Bf & Wf)];
+    destruct (side_view b tstop t Hb Hts Ct) as [(Bt & tk & tv & Kt & St & Pt & It & Iat & Lat & Nat)|(Bt & Wt)];
+    rewrite Bf, Bt in H; cbv iota in H.
+    - rewrite Kf, Kt in H. rewrite Sf, St, (W_cons_in _ _ _ Pf), (W_cons_in _ _ _ Pt), list_diff_g_cons.
+      assert (Caf : cst a (advance f)) by (left; split; [exact Iaf|split; [exact Laf|exact Naf]]).
+      assert (Cat : cst b (advance t)) by (left; split; [exact Iat|split; [exact Lat|exact Nat]]).
+      destruct (fk <? tk).
+      { destruct (diff_loop addr_eqb n false (advance f) t _ _) as [l|] eqn:E; [|discriminate].
+        injection H as <-. f_equal. rewrite (IH _ _ _ Caf Ct E), St, (W_cons_in _ _ _ Pt). reflexivity. }
+      destruct (tk <? fk).
+      { destruct (diff_loop addr_eqb n false f (advance t) _ _) as [l|] eqn:E; [|discriminate].
+        injection H as <-. f_equal. rewrite (IH _ _ _ Cf Cat E), Sf, (W_cons_in _ _ _ Pf). reflexivity. }
+      cbn [orb] in *. destruct (negb (fv =? tv)) eqn:Em.
+      { destruct (diff_loop addr_eqb n false (advance f) (advance t) _ _) as [l|] eqn:E; [|discriminate].
+        injection H as <-. f_equal. apply (IH _ _ _ Caf Cat E). }
+      destruct (skip_common addr_eqb n true (advance f) (advance t)) as [[f' t']|] eqn:Es; [|discriminate].
+      destruct (skip_ok addr_eqb addr_inj _ _ Sa n 0 true _ _ _ _ Iaf Iat Es) as (If' & It' & Lf' & Lt' & p & S1 & S2 & _).
+      destruct (skip_located addr_eqb a b n _ _ _ _ _ Laf Lat Es) as (Lof & Lot).
+      assert (Cf' : cst a f') by (left; split; [exact If'|split; [exact Lof|congruence]]).
+      assert (Ct' : cst b t') by (left; split; [exact It'|split; [exact Lot|congruence]]).
+      rewrite (IH _ _ _ Cf' Ct' H). rewrite S1, S2, !W_app. symmetry. apply list_diff_g_common_prefix.
+    - rewrite Kf in H. rewrite Sf, (W_cons_in _ _ _ Pf), Wt, list_diff_g_nil_r. cbn [map fst snd].
+      assert (Caf : cst a (advance f)) by (left; split; [exact Iaf|split; [exact Laf|exact Naf]]).
+      destruct (diff_loop addr_eqb n false (advance f) t _ _) as [l|] eqn:E; [|discriminate].
+      injection H as <-. f_equal. rewrite (IH _ _ _ Caf Ct E), Wt. apply list_diff_g_nil_r.
+    - rewrite Kt in H. rewrite St, (W_cons_in _ _ _ Pt), Wf. cbn [list_diff_g map fst snd].
+      assert (Cat : cst b (advance t)) by (left; split; [exact Iat|split; [exact Lat|exact Nat]]).
+      destruct (diff_loop addr_eqb n false f (advance t) _ _) as [l|] eqn:E; [|discriminate].
+      injection H as <-. f_equal. rewrite (IH _ _ _ Cf Cat E), Wf. reflexivity.
+    - injection H as <-. rewrite Wf, Wt. reflexivity.
+  Qed.
+
+  Lemma cst_sem_le t c : cst t c -> (length (cur_sem c) <= length (flatten t))%nat.
+  Proof. intros [(Ic & _)|(_ & ->)]; [apply (cinv_sem_le _ _ _ Ic) | cbn; lia]. Qed.
+
+  Lemma diff_totalw n : forall f t,
+    cst a f -> cst b t ->
+    (length (cur_sem f) + length (cur_sem t) + level a * S (length (flatten a)) + 1 < n)%nat ->
+    diff_loop addr_eqb n false f t fstop tstop <> None.
+  Proof.
+    pose proof (wf_root_ksorted a Ha) as Sa.
+    induction n as [|n IH]; intros f t Cf Ct Hn; [exfalso; exact (Nat.nlt_0_r _ Hn)|].
+    cbn [diff_loop]. set (K := (level a * S (length (flatten a)))%nat) in *.
+    destruct (side_view a fstop f Ha Hfs Cf) as [(Bf & fk & fv & Kf & Sf & Pf & If & Iaf & Laf & Naf)|(Bf & Wf)];
+    destruct (side_view b tstop t Hb Hts Ct) as [(Bt & tk & tv & Kt & St & Pt & It & Iat & Lat & Nat)|(Bt & Wt)];
+    rewrite Bf, Bt; cbv iota.
+    - rewrite Kf, Kt. rewrite Sf, St in Hn. cbn [length] in Hn.
+      assert (Caf : cst a (advance f)) by (left; split; [exact Iaf|split; [exact Laf|exact Naf]]).
+      assert (Cat : cst b (advance t)) by (left; split; [exact Iat|split; [exact Lat|exact Nat]]).
+      destruct (fk <? tk).
+      { pose proof (IH (advance f) t Caf Ct) as H. rewrite St in H. cbn [length] in H.
+        destruct (diff_loop addr_eqb n false (advance f) t _ _); [discriminate|]. exfalso. apply H; [lia|reflexivity]. }
+      destruct (tk <? fk).
+      { pose proof (IH f (advance t) Cf Cat) as H. rewrite Sf in H. cbn [length] in H.
+        destruct (diff_loop addr_eqb n false f (advance t) _ _); [discriminate|]. exfalso. apply H; [lia|reflexivity]. }
+      cbn [orb]. destruct (negb (fv =? tv)).
+      { pose proof (IH (advance f) (advance t) Caf Cat) as H.
+        destruct (diff_loop addr_eqb n false (advance f) (advance t) _ _); [discriminate|]. exfalso. apply H; [lia|reflexivity]. }
+      destruct (skip_common addr_eqb n true (advance f) (advance t)) as [[f' t']|] eqn:Es.
+      + destruct (skip_ok addr_eqb addr_inj _ _ Sa n 0 true _ _ _ _ Iaf Iat Es) as (If' & It' & Lf' & Lt' & p & S1 & S2 & _).
+        destruct (skip_located addr_eqb a b n _ _ _ _ _ Laf Lat Es) as (Lof & Lot).
+        apply (IH f' t'); [left; split; [exact If'|split; [exact Lof|congruence]] | left; split; [exact It'|split; [exact Lot|congruence]] |].
+        rewrite S1, app_length in Hn. rewrite S2, app_length in Hn. lia.
+      + exfalso. apply (skip_total addr_eqb addr_inj _ _ Sa n 0 true _ _ Iaf Iat); [|exact Es].
+        rewrite Naf. replace (S (level a) - 1)%nat with (level a) by lia. fold K. lia.
+    - rewrite Kf. rewrite Sf in Hn. cbn [length] in Hn.
+      assert (Caf : cst a (advance f)) by (left; split; [exact Iaf|split; [exact Laf|exact Naf]]).
+      pose proof (IH (advance f) t Caf Ct) as H.
+      destruct (diff_loop addr_eqb n false (advance f) t _ _); [discriminate|]. exfalso. apply H; [lia|reflexivity].
+    - rewrite Kt. rewrite St in Hn. cbn [length] in Hn.
+      assert (Cat : cst b (advance t)) by (left; split; [exact Iat|split; [exact Lat|exact Nat]]).
+      pose proof (IH f (advance t) Cf Cat) as H.
+      destruct (diff_loop addr_eqb n false f (advance t) _ _); [discriminate|]. exfalso. apply H; [lia|reflexivity].
+    - discriminate.
+  Qed.
+
+  (* the Next loop between any admissible start cursors and these stop cursors *)
+  Theorem range_loop_spec f t :
+    cst a f -> cst b t ->
+    diff_loop addr_eqb (diff_fuel a b) false f t fstop tstop
+    = Some (list_diff_g false (W (cur_sem f)) (W (cur_sem t))).
+  Proof.
+    intros Cf Ct.
+    destruct (diff_loop addr_eqb (diff_fuel a b) false f t fstop tstop) as [r|] eqn:E.
+    - f_equal. apply (diff_okw _ _ _ _ Cf Ct E).
+    - exfalso. apply (diff_totalw (diff_fuel a b) f t Cf Ct); [|exact E].
+      pose proof (cst_sem_le a f Cf). pose proof (cst_sem_le b t Ct). unfold diff_fuel. nia.
+  Qed.
+End Range.
+
+(* ---- start and stop cursors ---------------------------------------------------------- *)
+
+Lemma filter_all_true'' {A} (f : A -> bool) l : Forall (fun x => f x = true) l -> filter f l = l.
+Proof. induction 1 as [|x l Hx _ IH]; [reflexivity|]. cbn [filter]. rewrite Hx. f_equal. exact IH. Qed.
+
+Lemma skipn_kfalse p (l : list kv) :
+  mono p -> ksorted (keys l) -> skipn (N.to_nat (kfalse p l)) l = filter (fun e => p (fst e)) l.
+Proof.
+  intros Hm. induction l as [|[k v] l IH]; intros Hs; [reflexivity|].
+  cbn [keys map fst] in Hs. inversion Hs as [|? ? Hs' Hf]; subst.
+  unfold kfalse, nfalse, keys. cbn [map fst filter]. destruct (p k) eqn:Ek; cbn [negb].
+  - assert (Hall : Forall (fun e : kv => p (fst e) = true) l).
+    { rewrite Forall_forall in *. intros [k' v'] Hin. cbn [fst]. apply (Hm k k'); [|exact Ek].
+      assert (k < k') by (apply Hf, in_map_iff; exists (k', v'); split; [reflexivity|exact Hin]). lia. }
+    assert (E0 : filter (fun k0 => negb (p k0)) (map fst l) = []).
+    { apply filter_all_false. rewrite Forall_forall in *. intros x Hx. apply in_map_iff in Hx as (e & <- & He).
+      rewrite (Hall e He). reflexivity. }
+    rewrite E0. cbn [length N.of_nat N.to_nat skipn]. f_equal. symmetry. apply filter_all_true'', Hall.
+  - cbn [length]. rewrite Nat2N.id. cbn [skipn]. specialize (IH Hs').
+    unfold kfalse, nfalse, keys in IH. rewrite Nat2N.id in IH. exact IH.
+Qed.
+
+Theorem start_search p t :
+  mono p -> wf_root t ->
+  cst t (cursor_at_search p t) /\ cur_sem (cursor_at_search p t) = filter (fun e => p (fst e)) (flatten t).
+Proof.
+  intros Hm [->|[Hs Hso]]; [split; [right; split; reflexivity | reflexivity]|].
+  destruct (at_search_props p t Hm Hs Hso) as (C1 & C2 & C3 & C4 & C5 & C6 & C7 & C8).
+  split.
+  - destruct (cur_valid (cursor_at_search p t)) eqn:V.
+    + left. split; [|split; assumption]. split; [exact C1|]. split; [exact C4|]. split; [left; apply C8; reflexivity|].
+      split; assumption.
+    + right. split; [exact V|]. apply (at_search_invalid_sem p t Hm Hs Hso V).
+  - rewrite C7, (ordinal_of_spec p t Hm (conj Hs Hso)). apply (skipn_kfalse p _ Hm Hso).
+Qed.
+
+Theorem start_at_start t :
+  wf_root t -> cst t (cursor_at_start t) /\ cur_sem (cursor_at_start t) = filter (fun _ => true) (flatten t).
+Proof.
+  intros Hwf. split.
+  - left. split; [apply cursor_at_start_cinv, Hwf|]. split; [apply cursor_at_start_located | apply cursor_at_start_length].
+  - rewrite cursor_at_start_sem. symmetry. apply filter_all_true'.
+Qed.
+
+Theorem stop_search p t : mono p -> wf_root t -> stops_at p t (cursor_at_search p t).
+Proof.
+  intros Hm Hwf c k v Ic Lc Nc Kc.
+  destruct (cur_kv_head _ _ _ Kc) as (f' & par & Ec).
+  assert (V : cur_valid c = true) by (rewrite Ec; reflexivity).
+  destruct Hwf as [->|[Hs Hso]].
+  - exfalso. destruct (leaf_view _ c Ic V) as (k' & v' & _ & Sc & _).
+    destruct Ic as (Hne & _ & _ & _ & Hpos). unfold pos_ok in Hpos. rewrite (sems_hd _ Hne) in Hpos.
+    inversion Hpos as [|? ? [bb Hbb] _]; subst. rewrite Sc in Hbb. cbn [flatten] in Hbb.
+    destruct bb; discriminate.
+  - unfold in_bounds. rewrite V. cbn [andb].
+    pose proof Ic as (Hne & Hso0 & Hlod & _ & _).
+    apply (cmp_search p Hm t Hs Hso c k v Lc Nc (live_or_dead_valid c Hne Hlod V) Hso0 Kc).
+Qed.
+
+Theorem stop_past_end t : stops_at (fun _ => false) t (cursor_past_end t).
+Proof.
+  intros c k v Ic _ _ Kc. destruct (cur_kv_head _ _ _ Kc) as (f' & par & Ec).
+  unfold cursor_past_end. rewrite (in_bounds_past_end _ 0 c (level t) Ic). rewrite Ec. reflexivity.
+Qed.
+
+Lemma filter_filter {A} (f g : A -> bool) l : filter f (filter g l) = filter (fun x => g x && f x) l.
+Proof.
+  induction l as [|x l IH]; [reflexivity|]. cbn [filter]. destruct (g x); cbn [andb filter]; [|exact IH].
+  destruct (f x); [f_equal|]; exact IH.
+Qed.
+
+Definition start_pred (lo : option key) : key -> bool := match lo with None => fun _ => true | Some q => le_q q end.
+Definition stop_pred (hi : option key) : key -> bool := match hi with None => fun _ => false | Some q => le_q q end.
+
+Lemma le_q_mono' q : mono (le_q q).
+Proof. unfold mono, le_q. intros x y Hxy H. apply N.leb_le in H. apply N.leb_le. lia. Qed.
+Lemma start_pred_mono lo : mono (start_pred lo).
+Proof. destruct lo; [apply le_q_mono' | intros x y _ H; exact H]. Qed.
+Lemma stop_pred_mono hi : mono (stop_pred hi).
+Proof. destruct hi; [apply le_q_mono' | intros x y _ H; exact H]. Qed.
+
+Lemma window_is_range lo hi l :
+  W (stop_pred hi) (filter (fun e => start_pred lo (fst e)) l) = d_range lo hi l.
+Proof.
+  unfold W, d_range. rewrite filter_filter. apply filter_ext. intros [k v]. cbn [fst].
+  unfold in_range. destruct lo as [l0|], hi as [h|]; cbn [start_pred stop_pred]; unfold le_q;
+    rewrite ?N.leb_antisym, ?negb_involutive; reflexivity.
+Qed.
+
+(* THE RANGE THEOREM: DiffMapsKeyRange and RangeDiffMaps, for every pair of well-formed trees
+   and every [start, stop) (either bound may be absent; inverted and empty ranges included),
+   report exactly the diff of the decoded rows of the two contents restricted to the range. *)
+Theorem range_diff_spec (addr_eqb : node -> node -> bool) (dec : val -> N) :
+  (forall x y, addr_eqb x y = true -> x = y) ->
+  forall lo hi a b, wf_root a -> wf_root b ->
+    key_range_diff addr_eqb dec lo hi a b = Some (range_list_diff_d dec lo hi (flatten a) (flatten b))
+    /\ range_diff addr_eqb dec lo hi a b = Some (range_list_diff_d dec lo hi (flatten a) (flatten b)).
+Proof.
+  intros addr_inj lo hi a b Ha Hb.
+  assert (Hfin : forall fa fb sa sb,
+             cst a fa -> cur_sem fa = filter (fun e => start_pred lo (fst e)) (flatten a) ->
+             cst b fb -> cur_sem fb = filter (fun e => start_pred lo (fst e)) (flatten b) ->
+             stops_at (stop_pred hi) a sa -> stops_at (stop_pred hi) b sb ->
+             option_map (canonical_filter dec) (diff_loop addr_eqb (diff_fuel a b) false fa fb sa sb)
+             = Some (range_list_diff_d dec lo hi (flatten a) (flatten b))).
+  { intros fa fb sa sb Ca Sa Cb Sb Hsa Hsb.
+    rewrite (range_loop_spec addr_eqb addr_inj a b Ha Hb (stop_pred hi) (stop_pred_mono hi) sa sb Hsa Hsb fa fb Ca Cb).
+    cbn [option_map]. rewrite canonical_filter_g, Sa, Sb, !window_is_range. reflexivity. }
+  split.
+  - unfold key_range_diff. apply Hfin.
+    + destruct lo as [q|]; [apply (start_search (le_q q) a (le_q_mono' q) Ha) | apply (start_at_start a Ha)].
+    + destruct lo as [q|]; [apply (start_search (le_q q) a (le_q_mono' q) Ha) | apply (start_at_start a Ha)].
+    + destruct lo as [q|]; [apply (start_search (le_q q) b (le_q_mono' q) Hb) | apply (start_at_start b Hb)].
+    + destruct lo as [q|]; [apply (start_search (le_q q) b (le_q_mono' q) Hb) | apply (start_at_start b Hb)].
+    + destruct hi as [q|]; [apply (stop_search (le_q q) a (le_q_mono' q) Ha) | apply stop_past_end].
+    + destruct hi as [q|]; [apply (stop_search (le_q q) b (le_q_mono' q) Hb) | apply stop_past_end].
+  - unfold range_diff.
+    change (match lo with Some q => le_q q | None => fun _ : key => true end) with (start_pred lo).
+    change (match hi with Some q => le_q q | None => fun _ : key => false end) with (stop_pred hi).
+    apply Hfin.
+    + apply (start_search _ a (start_pred_mono lo) Ha).
+    + apply (start_search _ a (start_pred_mono lo) Ha).
+    + apply (start_search _ b (start_pred_mono lo) Hb).
+    + apply (start_search _ b (start_pred_mono lo) Hb).
+    + apply (stop_search _ a (stop_pred_mono hi) Ha).
+    + apply (stop_search _ b (stop_pred_mono hi) Hb).
+Qed.
